@@ -1,5 +1,7 @@
 """C03 — a write that reports failure changes nothing, now or after restart."""
 from vlib.mo import *
+from vlib.mirflow import exit_event
+import re
 from vlib.runner import KH, run_kani_group, run_mir_obligations
 
 LEVEL = "other"
@@ -104,6 +106,42 @@ MOS.append(MO("O3.1/capacity_gate", "HnswBackend::insert: WAL append only after 
               capacity_gate, functions=[("hnsw_backend.rs", "insert")], role="preflight-weaker-than-index"))
 
 
+def index_acceptance(F):
+    """HnswVectorIndex::add_vector refuses a vector only through validate_vector (the test the pre-flight of insert runs before the
+    WAL append) or because the index is full / the id does not fit usize / the backend fails: every error exit lies behind one of
+    those, and validate_vector is the first thing decided."""
+    A = "hnsw_index::HnswVectorIndex::add_vector"
+    fc = FnCheck(F, A)
+    if fc.fn is None:
+        return [fc.missing()]
+    VAL = call(r"= HnswVectorIndex::validate_vector\(", name="self.validate_vector(embedding)")
+    out = []
+    if fc.count(VAL) == 0:
+        r = fc.reachable(exit_event("ok"))
+        return [Result("violated", "add_vector no longer calls validate_vector: the index accepts or refuses by a test of its own, which the pre-flight of HnswBackend::insert does not run", queries=r.queries, seconds=r.seconds,
+                       sample={"fn": fc.name, "kind": "PRECEDES", "A": VAL.name})]
+    out.append(fc.precedes(VAL, exit_event("ok")))
+    # no vector-dependent refusal other than validate_vector: the remaining error exits are capacity, id conversion, backend
+    from vlib.mirflow import origin as _o
+    others = []
+    for idx in sorted(fc.fn.blocks):
+        b = fc.fn.blocks[idx]
+        if b.cleanup or b.kind != "switch":
+            continue
+        o = _o(fc.fn, b.switch_local or "")
+        if re.search(r"tracing|Level|Interest", o):
+            continue
+        if not re.search(r"validate_vector|Ge\(.*usize\), .*usize\)|try_from|backend|insert|add|map_err|is_full", o):
+            others.append("bb%d: %s" % (idx, o[:80]))
+    out.append(Result("holds" if not others else "violated", "add_vector decides only on validate_vector, capacity, id conversion and the backend result" if not others else
+                      "add_vector has a refusal of its own that the pre-flight does not run: " + others[0], sample={"fn": fc.name, "kind": "COUNT", "other_decisions": others[:3]}))
+    return out
+
+
+MOS.append(MO("O3.1/index_acceptance", "HnswVectorIndex::add_vector: validate_vector precedes Ok and no other vector-dependent refusal exists (so 'accepted by the pre-flight' implies 'accepted by the index' for every dimension)",
+              index_acceptance, functions=[("hnsw_index.rs", "add_vector")], role="preflight-weaker-than-index"))
+
+
 def rollback_args(F):
     """The rollback target is the stable state captured by the caller before the first attempt: the arguments passed to
     rollback_to_stable_state are exactly this function's (stable_offset, stable_entry_count) parameters."""
@@ -136,8 +174,12 @@ MOS.append(MO("O3.3/rollback_target", "append_internal_with_rollback / append_ba
               rollback_args, functions=[("persistence.rs", "append_internal_with_rollback"), ("persistence.rs", "append_batch_internal_with_rollback")]))
 
 FK = [("hnsw_backend.rs", "normalize_in_place_if_needed"), ("hnsw_index.rs", "add_vector"), ("hnsw_backend.rs", "insert")]
-ROWS = [("euclidean_d1", "thorough"), ("euclidean_d2", "quick"), ("cosine_d1", "thorough"), ("cosine_d2", "quick"), ("inner_product_d2", "thorough"),
-        ("euclidean_d4", "thorough")]  # cosine_d3 removed: no verdict in 20 min of CaDiCaL on the unchanged tree (three symbolic f32 lanes through the norm)
+# cosine_d2 / inner_product_d2 are in no tier any more: after the norm-overflow fix (3cfaeac) CBMC no longer finishes them (900 s and
+# 2400 s time-outs in isolation; before the fix cosine_d2 took ~200 s) — the squared norm of the normalised vector is computed by the
+# pre-flight's validate_vector and again by add_vector's, and the two multiplier circuits have to be proved equal.  Dimension 1 keeps the
+# value-level statement for Cosine / InnerProduct; at dimension 2 it is carried by Euclidean (finiteness is metric-independent), by
+# C02 O2.5/overflow_*_d2 (overflowing norms) and structurally by O3.1/pinned + O3.1/index_acceptance (the pre-flight calls the index's own test).
+ROWS = [("euclidean_d1", "thorough"), ("euclidean_d2", "quick"), ("cosine_d1", "quick"), ("inner_product_d1", "thorough"), ("euclidean_d4", "thorough")]
 HARNESSES = [
     KH("O3.1/" + r, "c03_o1_preflight_" + r, "pre-log validation of HnswBackend::insert accepts only vectors the index accepts (%s)" % r, src="hnsw_backend.rs", functions=FK,
        bounds="all f32 bit patterns per lane (NaN, inf, subnormals, overflow of the squared norm); dimension/metric per instance: " + r, tier=t, timeout=900,
@@ -161,10 +203,9 @@ PERSIST_HARNESSES = [
     KH("O3.4/failed_fsync", "c03_o4_failed_fsync_rolled_back", "append_internal_with_rollback: frame fully written but the fsync fails => Err and the same restoration",
        src="persistence.rs", functions=FPS, bounds="one good frame; second append whose sync_all fails", assumptions=PA3, timeout=1500, replay="solver-only", tier="thorough"),
 ] + [
-    KH("O3.4/rollback_fails_" + nm, "c03_o4_rollback_fails_" + nm, "append_internal_with_rollback: when the rollback's own %s fails the call still returns Err (never acknowledged)" % what,
-       src="persistence.rs", functions=FPS, bounds="write cut after 10 bytes; the rollback's %s fails" % what, assumptions=PA3, timeout=1500, replay="solver-only", tier="thorough")
-    for nm, what in (("setlen", "set_len"), ("seek", "seek"))
-] + [
+    # O3.4/rollback_fails_setlen / _seek (the rollback's own set_len / seek fails => still Err) are in no tier: 2400 s time-outs with the
+    # machine to themselves (symbolic choice of the fault: out of memory).  "Never acknowledged when the rollback fails" is decided
+    # structurally by O3.3/rollback (Ok only via rollback_to_offset()? -> Ok); the harness bodies stay in harness/persistence_proofs.rs.
     KH("O3.4/batch_fsync", "c03_o4_batch_fsync_fails", "append_batch_internal_with_rollback: frames written, fsync fails => Err and no frame of the batch stays in the log (a complete frame is on disk until the rollback truncates it)",
        src="persistence.rs", functions=FPS + [("persistence.rs", "append_batch_internal_with_rollback"), ("persistence.rs", "append_batch_internal")],
        bounds="one good frame; a one-entry batch whose fsync fails", assumptions=PA3, timeout=1500, replay="solver-only"),
